@@ -14,6 +14,7 @@ Accept(e) == CASE e.kind = "decode" -> DecodeOK(e)
                [] e.kind = "agree" -> AgreeOK(e)
                [] e.kind = "alpha" -> AlphaOK(e)
                [] e.kind = "alphanorm" -> AlphaNormOK(e)
+               [] e.kind = "firstuse" -> FirstUseOK(e)
 Judge(n) == IF Accept(Trace[n]) THEN TRUE ELSE PrintT(ToJson([reject |-> n]))
 Init == k = 0
 Next == \/ /\ k = 0
